@@ -30,7 +30,7 @@ CODE ANCHORS (files / mechanisms meant to make it hold): {json.dumps(anchors)[:2
 
 {taken_txt}
 
-Pick a clause of the property and a mechanism / code site that none of them touched. Make it HARD to find: think about which inputs a diligent tester with a random document generator, a schema-driven keyword sweep and the shipped sample files would still be unlikely to produce, and aim there. Good hunting grounds: a clause mentioned only in passing in the statement; one particular object type, keyword, value shape, option VALUE (not just the option) or nesting out of hundreds; an interaction of two features (an option together with a value shape; two options together; an edit followed by another call); unusual but legal values (very long, empty, one character, extreme numbers, a value equal to a keyword, unusual Unicode); `mappyfile/mapfile.lark` or one `mappyfile/schemas/*.json` file; state that leaks between two calls; a defect that needs TWO small edits in different places that each look harmless; something visible only through one front end (file / stream / CLI / string).
+Pick a clause of the property and a mechanism / code site that none of them touched. Make it HARD to find: think about which inputs a diligent tester with a random document generator, a schema-driven keyword sweep and the shipped sample files would still be unlikely to produce, and aim there. Good hunting grounds: a clause mentioned only in passing in the statement; one particular object type, keyword, value shape, option VALUE (not just the option) or nesting out of hundreds; an interaction of two features (an option together with a value shape; two options together; an edit followed by another call); unusual but legal values (very long, empty, one character, extreme numbers, a value equal to a keyword, unusual Unicode); `mappyfile/mapfile.lark` or one `mappyfile/schemas/*.json` file; state that leaks between two calls; a defect that needs TWO small edits in different places that each look harmless; something visible only through one front end (file / stream / CLI / string); something that depends on the ENVIRONMENT of the call (working directory, PYTHONHASHSEED, locale / default encoding, recursion limit, an earlier call in the same process, objects shared between calls); the less-used public entry points (Parser / MapfileToDict / PrettyPrinter / Validator classes used directly, dump to a file object, save, load from a stream, the option values nobody passes); values at the edge of what a keyword accepts (minimum / maximum, empty, exactly one element, the longest legal form).
 
 ## Your scratch worktree
 
